@@ -60,9 +60,15 @@ Definition reversal_file (T : rtables) (d t : bytes) (f : rfile) : rres :=
 
 (* ---- the fragment of Batch/File validation the property speaks about *)
 
-(* ValidAmountForCodes without options: prenote codes carry 0, all others a positive amount *)
-Definition amount_rule (pre : list Z) (e : entry) : bool :=
-  if memz (e_code e) pre then e_amount e =? 0 else 0 <? e_amount e.
+(* strings.EqualFold(CompanyEntryDescription, "PRENOTE") — ASCII folding suffices: no letter
+   of PRENOTE has a non-ASCII case variant *)
+Definition upper (b : N) : N := if ((97 <=? b) && (b <=? 122))%N then (b - 32)%N else b.
+Definition is_prenote_desc (d : bytes) : bool := bytes_eqb (map upper d) [80; 82; 69; 78; 79; 84; 69]%N.
+
+(* ValidAmountForCodes without options: prenote codes, and every entry of a batch described
+   PRENOTE, carry 0; all others a positive amount *)
+Definition amount_rule (pre : list Z) (prenote_desc : bool) (e : entry) : bool :=
+  if memz (e_code e) pre || prenote_desc then e_amount e =? 0 else 0 <? e_amount e.
 
 Definition rbatch_valid (T : rtables) (b : rbatch) : bool :=
   match rb_entries b with [] => false | _ => true end
@@ -73,7 +79,7 @@ Definition rbatch_valid (T : rtables) (b : rbatch) : bool :=
   && implb (rb_scc_h b =? 225) (all_dir TDebit (rb_entries b))
   && (rb_credit b =? sum_dir (rt_amt T) TCredit (rb_entries b))
   && (rb_debit b =? sum_dir (rt_amt T) TDebit (rb_entries b))
-  && forallb (amount_rule (rt_pre T)) (rb_entries b).
+  && forallb (amount_rule (rt_pre T) (is_prenote_desc (rb_desc b))) (rb_entries b).
 
 Definition rfile_valid (T : rtables) (f : rfile) : bool :=
   match rf_batches f with [] => false | _ => true end
